@@ -134,8 +134,27 @@ def audit(modules, extra_names=()):
             "theorems": names, "failures": failures}
 
 
+def regenerate_tables():
+    """Run the translator. Returns (tables dict or None, error string or None)."""
+    try:
+        from . import extract_tables
+        return extract_tables.generate(), None
+    except Exception as e:   # a construct the translator expects is gone: the obligation is not discharged
+        return None, f"translator (extract_tables.py) could not read the current source: {e!r}"
+
+
 def lean_gate(modules, need_driver=True):
-    """Build + audit. Returns (ok, info) where info has obligations/discharged/failures/log."""
+    """Regenerate tables + build + audit. Returns (ok, info) with obligations/discharged/failures/log."""
+    tables, terr = regenerate_tables()
+    ok, info = _lean_gate(modules, need_driver)
+    info["tables"] = tables
+    if terr:
+        info["failures"] = [terr] + info.get("failures", [])
+        ok = False
+    return ok, info
+
+
+def _lean_gate(modules, need_driver=True):
     targets = list(modules) + (["driver"] if need_driver else [])
     ok, log = lake_build(targets)
     info = {"build_ok": ok, "build_log_tail": log[-1500:] if not ok else ""}
@@ -154,6 +173,30 @@ class Driver:
     def __init__(self):
         self.p = subprocess.Popen([DRIVER], stdin=subprocess.PIPE, stdout=subprocess.PIPE, text=True, bufsize=1)
         self.n = 0
+
+    def ask_many(self, objs):
+        """pipelined: write all requests from a thread, read all replies"""
+        import threading
+        lines = [json.dumps(o) + "\n" for o in objs]
+
+        def w():
+            for i in range(0, len(lines), 2000):
+                self.p.stdin.write("".join(lines[i:i + 2000]))
+            self.p.stdin.flush()
+        t = threading.Thread(target=w)
+        t.start()
+        out = []
+        for _ in lines:
+            line = self.p.stdout.readline()
+            if not line:
+                raise RuntimeError("driver died")
+            r = json.loads(line)
+            if "bad-op" in r:
+                raise RuntimeError("driver rejected a request: " + str(r["bad-op"]))
+            out.append(r)
+        t.join()
+        self.n += len(lines)
+        return out
 
     def ask(self, obj):
         self.p.stdin.write(json.dumps(obj) + "\n")
